@@ -177,26 +177,28 @@ def run_config(chk, config):
             evs = b.events()[n0:]
             reads = [e for e in evs if e[0] == "read"]
             pushes = [e for e in evs if e[0] == "push"]
-            if not pushes or len(reads) < 4:
+            if not pushes:
                 continue
             vi, p = result_parts(pushes[-1][2])
+            top = [e for e in reads if e[1] == "reader.*"]
+            hv = AvpHeaderView(eng, b, top)
+            if not hv.ok:
+                continue
             if vi != 1:
-                tp = [e for e in reads if e[1] == "reader.*"]
-                if len(tp) >= 3 and not eng.ent(b, c_eq(tp[2][3].lin, Lin.const(0))):
+                if not eng.ent(b, c_eq(hv.vendor, Lin.const(0))):
                     info["bad"].append("a vendor-id fault is not reported (AVP accepted with a vendor id that may be non-zero)")
                 continue
             nm = tables.variant_name(eng, p)
             f0 = field0(p)
             info["seen"][nm] = info["seen"].get(nm, 0) + 1
-            top = [e for e in reads if e[1] == "reader.*"]
             inner = [e for e in reads if e[1] != "reader.*"]
-            if nm == "UnsupportedVendorId" and not (isinstance(f0, VInt) and f0.lin == top[2][3].lin):
+            if nm == "UnsupportedVendorId" and not (isinstance(f0, VInt) and eng.ent(b, c_eq(f0.lin, hv.vendor))):
                 info["bad"].append("UnsupportedVendorId does not carry the vendor id")
-            if nm == "UnknownAvp" and not (isinstance(f0, VInt) and f0.lin == top[3][3].lin):
+            if nm == "UnknownAvp" and not (isinstance(f0, VInt) and eng.ent(b, c_eq(f0.lin, hv.attr))):
                 info["bad"].append("UnknownAvp does not carry the attribute type")
             if nm in ("UnknownMessageType", "InvalidResultCodeErrorType") and not (isinstance(f0, VInt) and inner and f0.lin == inner[-1][3].lin):
                 info["bad"].append("%s does not carry the code just read" % nm)
-            if nm in AVP_ERRS and not (isinstance(f0, VInt) and eng.ent(b, c_eq(f0.lin, top[3][3].lin))):
+            if nm in AVP_ERRS and not (isinstance(f0, VInt) and eng.ent(b, c_eq(f0.lin, hv.attr))):
                 info["bad"].append("%s names another attribute type than the failing AVP's" % nm)
         info["n0"] = n0
     eng.hooks["loop"] = on_loop
@@ -207,13 +209,13 @@ def run_config(chk, config):
         evs = s.events()[info["n0"]:]
         pushes = [e for e in evs if e[0] == "push"]
         reads = [e for e in evs if e[0] == "read" and e[1] == "reader.*"]
-        if pushes and len(reads) >= 2:
+        hv = AvpHeaderView(eng, s, reads)
+        if pushes and hv.ok:
             vi, p = result_parts(pushes[-1][2])
             if vi == 1 and tables.variant_name(eng, p) == "InvalidAVPLength":
                 info["seen"]["InvalidAVPLength"] = info["seen"].get("InvalidAVPLength", 0) + 1
                 f0 = field0(p)
-                q, r = eng.divmod_const(s, reads[0][3].lin, 64)
-                total = q.scale(256) + reads[1][3].lin
+                total = hv.total
                 if not (isinstance(f0, VInt) and (eng.ent(s, c_eq(f0.lin, total)) or eng.ent(s, c_eq(f0.lin + 6, total)))):
                     info["bad"].append("InvalidAVPLength does not carry the AVP's length field (or its payload length)")
     need = ("UnsupportedVendorId", "UnknownAvp", "UnknownMessageType", "InvalidResultCodeErrorType", "InvalidAVPLength", "IncompleteAVP", "InvalidUtf8")
@@ -303,6 +305,11 @@ def run_config(chk, config):
 
 def run(chk):
     run_config(chk, "default")
+    # "the unknown ... code is reported": every unassigned code of an enumerated field is rejected with its value (C16)
+    from framework import Sub
+    import rules.c16 as c16
+    Sub(chk, "via C16 | ", lambda k: k.startswith("reject-value") or "(wire)" in k or "decode at the AVP decoder" in k or k == "table | attribute_type | dispatch"
+        ).borrow(c16, "default", 6, "rejection of unassigned codes")
     if chk.tier == "thorough":
         for cfg in ("debug", "release"):
             run_config(chk, cfg)
